@@ -5,7 +5,7 @@ Model of the cuboid cell systems
 * `jellyfysh/activator/internal_state/cell_occupancy/cells/cells.py`                (`Cell`)
 * `jellyfysh/activator/internal_state/cell_occupancy/cells/cuboid_cells.py`         (`CuboidCells`, `_next_float_up/down`)
 * `jellyfysh/activator/internal_state/cell_occupancy/cells/cuboid_periodic_cells.py` (`CuboidPeriodicCells`)
-* `HypercuboidPeriodicBoundaries.correct_position_entry` (`x % L`, via `JF.pymod`)
+* `HypercuboidPeriodicBoundaries.correct_position_entry` (`r = x % L; r if r != L else 0.0`, via `JF.pywrap`)
 
 written after the source.  Integer identifiers are Python ints (`Int`); everything that touches a
 position is generic in the scalar `α` (exact reading `ℚ`, binary64 reading `Float`).
@@ -288,7 +288,7 @@ def zipWith3' {β γ δ ε : Type} (f : β → γ → δ → ε) : List β → L
 `translate` (`sign = true`): `correct_position_entry((max + min) / 2.0 ∓ other_min, d)` -/
 def midEntry (sign : Bool) (cmax cmin other len : α) : α :=
   let mid := (cmax + cmin) / o.ofInt 2
-  pymod o (if sign then mid + other else mid - other) len
+  pywrap o (if sign then mid + other else mid - other) len
 
 def midPosition (sign : Bool) (c other : Cell α) : List α :=
   zipWith3' (fun (mm : α × α) om l => midEntry o sign mm.1 mm.2 om l) (List.zip c.cmax c.cmin) other.cmin s.lengths
